@@ -279,8 +279,8 @@ def run(rep, tier, seed):
         refuted = {cl: "" for cl in CLAUSES}
 
     # 3. spec -> code: behaviours of the emission instance and the static cases on real assemblies
-    for fam, cfg, cap in (("replay", "AxialExpansion_emit%s.cfg" % sfx, 2000 if _SELFTEST else 60000 if thorough else 5000),
-                          ("cases", "AxialExpansion_cases.cfg", None)):
+    for fam, cfg, cap in (("replay", "AxialExpansion_emit%s.cfg" % sfx, 2000 if _SELFTEST else 45000 if thorough else 4000),
+                          ("cases", "AxialExpansion_cases%s.cfg" % sfx, None)):
         eres, cat, cases = emit(cfg)
         rep.add_tlc("behaviours:" + cfg, eres)
         census = action_census(cases)
@@ -338,8 +338,7 @@ def run(rep, tier, seed):
                     raise tlc.MachineryError("TLC refutes %s, the real code conforms to the model, yet the measurement does not show it: %s" % (cl, m))
 
     # 4. code -> spec: seeded random histories (dyadic factors: the real arithmetic is exact) validated by TLC
-    ntr = 25 if _SELFTEST else 300 if thorough else 60
-    _, cat, _ = emit("AxialExpansion_cases.cfg")
+    ntr = 25 if _SELFTEST else 300 if thorough else 50
     traces = trace_driver(Adapter(cat["CT"], cat["BT"]), ntr, 6, seed)
     bad, stats = tracecheck.validate("AxialExpansion_trace", "AxialExpansion_trace.cfg", MODDIR, traces, timeout=3000)
     rep.add_tlc("trace-validation", stats["tlc"])
@@ -561,7 +560,7 @@ def selftest():
         ("block boundary follows the last solid component, not the target", M(C, "axiallyExpandAssembly", "if self.expansionData.isTargetComponent(c):", "if True:")),
         ("block mid-plane p.z not updated", M(C, "axiallyExpandAssembly", "b.p.z = b.p.zbottom + b.getHeight() / 2.0", "pass")),
         ("component volume cache not cleared", M(C, "axiallyExpandAssembly", "c.clearCache()", "pass")),
-        ("block height set to the target component's height", M(C, "axiallyExpandAssembly", "b.p.height = b.p.ztop - b.p.zbottom\n            else:", "b.p.height = c.height\n            else:")),
+        ("block height set to the target component's height", M(C, "axiallyExpandAssembly", "b.p.ztop = c.ztop\n                    b.p.height = b.p.ztop - b.p.zbottom", "b.p.ztop = c.ztop\n                    b.p.height = c.height")),
         ("reference temperature recorded after the new temperature is set",
          M(D, "updateComponentTemp", "self.componentReferenceTemperature[c] = c.temperatureInC\n    c.setTemperature(temp)", "c.setTemperature(temp)\n    self.componentReferenceTemperature[c] = c.temperatureInC")),
         ("negative block height accepted", M(X, "_checkBlockHeight", "if b.getHeight() < 0.0:", "if b.getHeight() < -1.0e9:")),
@@ -574,6 +573,7 @@ def selftest():
                                                                  "self._expansionFactors.get(c, list(self._expansionFactors.values())[-1] if self._expansionFactors else 1.0)")),
         ("block temperature = last grid point instead of the mean", M(D, "updateComponentTempsBy1DTempField", "blockAveTemp = mean(tmpMapping)", "blockAveTemp = tmpMapping[-1]")),
         ("temperature window excludes the block top side", M(D, "updateComponentTempsBy1DTempField", "if b.p.zbottom <= z <= b.p.ztop:", "if b.p.zbottom <= z <= b.p.ztop - 1.0:")),
+        ("temperature window excludes the block bottom (zbottom < z)", M(D, "updateComponentTempsBy1DTempField", "if b.p.zbottom <= z <= b.p.ztop:", "if b.p.zbottom < z <= b.p.ztop:")),
         ("thermal factor always relative to the input temperature", M(D, "_perComponentThermalExpansionFactors", "if self.expandFromTinputToThot:", "if True:")),
         ("aclp blocks no longer use the clad as target", M(D, "_setTargetComponents", "b.hasFlags(Flags.PLENUM) or b.hasFlags(Flags.ACLP)", "b.hasFlags(Flags.PLENUM)")),
         ("preferred target flags reordered (poison before control)", lambda: __import__("harness.selftest", fromlist=["patched"]).patched(
